@@ -68,8 +68,6 @@ def run_verus(u, udir, opts, select):
     except Exception:
         raise ToolLimit('verus produced no JSON for unit %s: %s' % (u.name, se[-400:]))
     vr = js.get('verification-results', {})
-    if vr.get('encountered-vir-error') or ('verified' not in vr):
-        raise ToolLimit('verus front-end error in unit %s (not a verification result): %s' % (u.name, first_error(se)))
     # map error messages to functions by line
     lines = u.text.split('\n')
     fn_at = {}
@@ -79,6 +77,16 @@ def run_verus(u, udir, opts, select):
         if m:
             cur = m.group(1)
         fn_at[n] = cur
+    if vr.get('encountered-vir-error') or ('verified' not in vr):
+        # an assert-by-compute that evaluates to false is a definite refutation of that obligation (Verus
+        # reports it before the SMT phase and stops); everything else at this stage is a tool problem
+        cm = re.search(r'^error: (expression simplifies to .*which evaluates to false)\n\s*--> [^:\n]+:(\d+):\d+', se, flags=re.M)
+        if cm:
+            fn = fn_at.get(int(cm.group(2))) or 'line_%s' % cm.group(2)
+            o = dict(id='%s/%s' % (u.name, fn), unit=u.name, name=fn, engine='verus', backend='verus compute (interpreter)',
+                     status='refuted', detail='%s (generated line %s)' % (cm.group(1), cm.group(2)), time_s=0.0, mode='proof', checks=1)
+            return [o], dict(cmd=' '.join(cmd), wall_s=wall, solver_s=0.0, partial='verus stopped at the first failed compute obligation; the remaining obligations of unit %s were not attempted in this run' % u.name)
+        raise ToolLimit('verus front-end error in unit %s (not a verification result): %s' % (u.name, first_error(se)))
     errs = {}
     for m in re.finditer(r'^error: (.*)\n\s*--> [^:\n]+:(\d+):\d+', se, flags=re.M):
         fn = fn_at.get(int(m.group(2)))
